@@ -20,6 +20,43 @@ build() { # $1 = variant
   fi
 }
 
+fuzz_campaign() { # $1 = property, $2 = seed ; returns 0 ok / 1 violation / 2 inconclusive
+  local id=$1 seed=$2 F=$H/fuzz W runs=${QXV_FUZZ_RUNS:-400000} inst=${QXV_FUZZ_INSTANCES:-8}
+  W=$(mktemp -d "$F/campaign-$id-XXXXXX")
+  ( cd "$F" && cargo +nightly fuzz build --fuzz-dir . props ) >"$H/target-fuzz.log" 2>&1 || { echo "INCONCLUSIVE: fuzz target does not build (see $H/target-fuzz.log)"; rm -rf "$W"; return 2; }
+  local bin=$F/target/x86_64-unknown-linux-gnu/release/props
+  [ -x "$bin" ] || { echo "INCONCLUSIVE: fuzz binary not found"; rm -rf "$W"; return 2; }
+  "$H/target/full/release/qxv" fuzz-seeds "$id" "$W/seeds" >/dev/null
+  local k pids=""
+  for k in $(seq 1 $inst); do
+    mkdir -p "$W/corpus$k" "$W/art$k"; cp "$W/seeds/"* "$W/corpus$k/" 2>/dev/null
+    ( QXV_FUZZ_PROP=$id "$bin" "$W/corpus$k" -runs=$runs -seed=$((seed * 100 + k)) -len_control=0 -max_len=192 -timeout=20 -rss_limit_mb=4096 -artifact_prefix="$W/art$k/" >"$W/log$k" 2>&1 ) &
+    pids="$pids $!"
+  done
+  wait $pids
+  local viol=0 execs=0 a
+  execs=$(grep -ho 'Done [0-9]* runs' "$W"/log* | awk '{s+=$2} END {print s+0}')
+  for a in "$W"/art*/*; do
+    [ -f "$a" ] || continue
+    case "$a" in *timeout-*|*oom-*) echo "INCONCLUSIVE: libFuzzer reported $(basename "$a") (kept in $W)"; [ $viol -eq 0 ] && viol=2; continue;; esac
+    "$H/target/full/release/qxv" fuzz-artifact "$id" "$a" && echo "note: artifact $(basename "$a") does not reproduce through the oracle" || viol=1
+  done
+  python3 - "$EVD/$id.json" "$execs" "$inst" "$runs" <<'PY'
+import json, sys
+p, execs, inst, runs = sys.argv[1], int(sys.argv[2]), int(sys.argv[3]), int(sys.argv[4])
+try:
+    e = json.load(open(p))
+    e["coverage"]["fuzz_campaign"] = {"engine": "libFuzzer (cargo-fuzz 0.13), oracle inside the target", "instances": inst, "runs_requested_per_instance": runs, "executions": execs}
+    e["coverage"]["evaluations"] += execs
+    json.dump(e, open(p, "w"), indent=1)
+except Exception as ex:
+    print("note: could not add fuzz statistics to the evidence:", ex)
+PY
+  echo "[$id] fuzz campaign: $execs executions in $inst instances, result=$viol"
+  [ $viol -eq 0 ] && rm -rf "$W"
+  return $viol
+}
+
 case "${1:-}" in
   build)
     mkdir -p "$H/target"
@@ -45,6 +82,11 @@ case "${1:-}" in
       merge="--merge-from $out"
     done
     rm -f "$EVD/.$id.part.json"
+    # thorough tier of the byte-level properties: coverage-guided campaign (libFuzzer) whose
+    # target contains the same oracle; fixed work (-runs), 8 independent instances
+    if [ "$tier" = thorough ] && [ $rc -eq 0 ] && echo " C01 C02 C03 C04 C07 C08 C10 C11 C14 C16 C18 " | grep -q " $id "; then
+      fuzz_campaign "$id" "$seed" || rc=$?
+    fi
     exit $rc ;;
   replay)
     f=${2:?replay file}
